@@ -521,6 +521,196 @@ def _nonempty(f, e, X):
     return False
 
 
+STREAM_READERS = {"fgetc": -1, "getc": -1, "getchar": -1, "fgets": 0, "getline": -1, "getdelim": -1}
+
+
+def j6_eof(prog, rep):
+    """Termination at end of input: a loop that reads from a stream stops when the stream has nothing more to give.  For every
+    call of a stream reader that lies on a cycle of its function: supposing the call answers its end-of-input value
+    (EOF, or NULL for fgets), no path leads back to the call -- every way round the loop passes an edge that this answer
+    rules out (a test of the value read, or the pair feof()/ferror() both found false).  Path search over the CFG; the
+    loop shape is free."""
+    n = 0
+    for up in UNITS:
+        u = prog.unit(up)
+        for f in u.funcs:
+            if f.file != up:
+                continue
+            for c in f.calls():
+                if c.callee not in STREAM_READERS:
+                    continue
+                n += 1
+                eof = STREAM_READERS[c.callee]
+                b0 = c.block.id
+                if b0 not in f.reach_from(b0):
+                    rep.ok("J6-eof", "%s in %s" % (c.text[:40], f.name), c.where, "not in a loop")
+                    continue
+                # names an answer is known by: the call expression itself and the variable it is assigned to.  End of input is
+                # sticky: once this call has answered EOF, every reader of the same stream met on the way round answers its own
+                # end-of-input value too
+                def stream(call):
+                    i = {"fgets": 2, "getline": 2, "getdelim": 3, "getchar": None}.get(call.callee, 0)
+                    return norm(call.arg(i)) if i is not None and call.arg(i) is not None else ("stdin",)
+                group = [g for g in f.calls() if g.callee in STREAM_READERS and stream(g) == stream(c)]
+                names = {}
+                poss = set(g.pos for g in group)
+                for g in group:
+                    names[norm(g)] = STREAM_READERS[g.callee]
+                    for e in f.all_elems():
+                        if e.is_assign and e.op == "=" and e.kid(1) is not None and e.kid(1).strip() is not None and e.kid(1).strip().pos == g.pos and norm(e.kid(0))[0] == "v":
+                            names[norm(e.kid(0))] = STREAM_READERS[g.callee]
+                varnames = set(x for x in names if x[0] == "v")
+
+                def overwritten(blk, upto=None):
+                    for e in blk.elems:
+                        if upto is not None and e is upto:
+                            break
+                        if e.is_assign and norm(e.kid(0)) in varnames and not (e.kid(1).strip() is not None and e.kid(1).strip().pos in poss):
+                            return True
+                    return False
+
+                def excluded(cond, kind):
+                    """What this edge says, supposing the reader answered `eof`: 'no' (contradiction), or flags feof/ferror found false."""
+                    flags = set()
+                    if kind not in (True, False):
+                        return False, flags
+                    for op, L, R, _, _ in cond_atoms(cond, kind):
+                        if L in names and R[0] == "c" and isinstance(R[1], int):
+                            k = R[1]
+                            eof = names[L]
+                            holds = {"==": eof == k, "!=": eof != k, "<": eof < k, "<=": eof <= k, ">": eof > k, ">=": eof >= k}.get(op, True)
+                            if not holds:
+                                return True, flags
+                        if L[0] == "call" and L[1] in ("feof", "ferror") and R == ("c", 0) and op == "==":
+                            flags.add(L[1])
+                    return False, flags
+                # search: (block, flags, answer still current)
+                from ..dataflow import edge_kinds
+                start = (b0, frozenset(), True)
+                seen = set()
+                work = [start]
+                back = None
+                first = True
+                while work and back is None:
+                    bid, flags, cur = work.pop()
+                    blk = f.blocks[bid]
+                    if not first and bid == b0:
+                        back = flags
+                        break
+                    if (bid, flags, cur) in seen and not first:
+                        continue
+                    seen.add((bid, flags, cur))
+                    if not first and cur and overwritten(blk):
+                        cur = False
+                    first = False
+                    if blk.noreturn:
+                        continue
+                    kinds = edge_kinds(blk)
+                    for si, sb in enumerate(blk.succs):
+                        if sb is None:
+                            continue
+                        cond, kind = kinds[si]
+                        fl = flags
+                        if cond is not None and cur:
+                            no, add = excluded(cond, kind)
+                            if no:
+                                continue
+                            fl = frozenset(flags | add)
+                            if {"feof", "ferror"} <= fl:
+                                continue
+                        work.append((sb, fl, cur))
+                rep.check(back is None, "J6-eof", "%s in %s: the loop ends at end of input" % (c.text[:40], f.name), c.where,
+                          "supposing this call answers %s, a path leads round the loop and back to it without any test that the answer rules out: "
+                          "at end of input the loop never ends" % ("EOF" if eof == -1 else "NULL"), function=f.name, construct="eof-loop:" + c.callee)
+    if n < 3:
+        rep.defer_broken("J6: fewer than 3 stream-reader calls found")
+
+
+class _NonNulPrefix:
+    """Ghost quantity G for a NUL-terminated input string starting at S0: the bytes S0[0..G) are known not to be NUL.  A test
+    whose outcome says the byte at S0 + G is not NUL (compared unequal to 0, equal to a non-zero constant, above a
+    non-negative or below a non-positive constant, or a switch case of a non-zero value) advances G by one."""
+
+    def __init__(self, S0, G):
+        self.S0, self.G = S0, G
+
+    @staticmethod
+    def address(A, e, st):
+        e = e.strip() if e is not None else None
+        if e is None:
+            return None
+        if e.cls == "UnaryOperator" and e.op == "*":
+            return A.lin(e.kid(0), st)
+        if e.cls == "ArraySubscriptExpr":
+            b, i = A.lin(e.kid(0), st), A.lin(e.kid(1), st)
+            return b + i if b is not None and i is not None else None
+        return None
+
+    def on_atom(self, A, cs, op, L, R, Le, Re):
+        if R[0] != "c" or not isinstance(R[1], int) or Le is None:
+            return cs
+        c = R[1]
+        nonzero = (op == "!=" and c == 0) or (op == "==" and c != 0) or (op == ">" and c >= 0) or (op == ">=" and c >= 1) or \
+                  (op == "<" and c <= 0) or (op == "<=" and c <= -1)
+        if not nonzero or L[0] not in ("*", "[]"):
+            return cs
+        st = frozenset(x for x in cs if isinstance(x, tuple))
+        a = self.address(A, Le, st)
+        if a is None:
+            return cs
+        from ..poly import Lin, subst_all
+        if A.holds(st, "==", a, Lin.var(self.S0) + Lin.var(self.G)):
+            return subst_all(cs, self.G, Lin.var(self.G) - Lin.const(1))          # G := G + 1
+        return cs
+
+
+STRING_INPUTS = (("util/hexify.c", "unhexify", 0),)
+
+
+def j7_strseq(prog, rep):
+    """A parser handed a NUL-terminated string reads it in order: every byte it reads lies at most one past the bytes it has
+    already found to be non-NUL on that path (so it never looks beyond the terminator).  Relational (sa/poly.py) with a
+    ghost count of known non-NUL leading bytes; the loop shape is free."""
+    from .. import poly
+    from ..poly import Lin
+    for up, fn, pi in STRING_INPUTS:
+        f = prog.func(up, fn)
+        if f is None:
+            raise cdb.AnalysisBroken("anchor missing: %s in %s" % (fn, up))
+        par = ("v", f.params[pi]["name"], f.params[pi]["id"])
+        S0, G = ("$entry", f.params[pi]["name"]), ("$nonnul",)
+        A = poly.Analysis(f, assume=[("==", Lin.var(par), Lin.var(S0)), ("==", Lin.var(G), Lin.const(0))],
+                          quiet={"strchr", "strlen", "strcspn", "strspn", "memchr"}, unsigned_terms={G})
+        A.ghost = _NonNulPrefix(S0, G)
+        A.run()
+        n = 0
+        for e in f.all_elems():
+            if not ((e.cls == "UnaryOperator" and e.op == "*") or e.cls == "ArraySubscriptExpr"):
+                continue
+            r = root_var(norm(e))
+            if r is None or (r[1], r[2]) != (par[1], par[2]):
+                continue
+            if (f.unit.types.get(e.ty) or {}).get("size") != 1:
+                continue
+            st = A.state_before(e)
+            if st is None:
+                continue
+            n += 1
+            a = None
+            ok = True
+            for P in (st if poly._is_disj(st) else [st]):
+                a = _NonNulPrefix.address(A, e, P)
+                if a is None or not A.holds(P, "<=", a, Lin.var(S0) + Lin.var(G)):
+                    ok = False
+                    break
+            rep.check(ok, "J7-strseq", "%s in %s" % (e.text[:40], fn), e.where,
+                      "a byte of the NUL-terminated input is read that is not known to lie at or before its terminator: every byte before it "
+                      "must have been tested and found non-NUL on this path (address %s, known non-NUL prefix $nonnul)" % (a,),
+                      function=fn, construct="strread:" + show(norm(e)))
+        if not n:
+            raise cdb.AnalysisBroken("J7: no read of the input string found in %s" % fn)
+
+
 def run(tier):
     rep = report.Report("C15", tier,
         "Decided: (J1) for every (cursor, end) function of json.c a lower bound on end - cursor is carried along every path; every "
@@ -543,8 +733,13 @@ def run(tier):
         j3(prog, rep)
         j4(prog, rep)
         j5(prog, rep)
+        j7_strseq(prog, rep)
+        j6_eof(prog, rep)
         if j4_wrap(prog, rep) < 1:
             rep.defer_broken("J4-wrap: no index with an unsigned subtraction found")
+    # the command-line parser's reads of argv[optind] and its pack cursor (rules shared with C18)
+    from . import c18
+    c18.rules(c18.Only(rep, {"Q1-bounds", "Q4-step"}))
     n = len(configs)
     rep.require_min("J1-cursor", 80 * n)
     rep.require_min("J2-validated", 3 * n)
